@@ -8,6 +8,7 @@
  * stdout: REC i mac=.. mtu=.. iftype=.. speed=.. chflags=.. rc=.. HELLO <hex>
  */
 #define _GNU_SOURCE
+#include <errno.h>
 #include <ifaddrs.h>
 #include <netinet/in.h>
 #include <stdio.h>
@@ -33,15 +34,48 @@ static uint8_t cur_v4[4], cur_v6[16];
 static int have_v4, have_v6;
 static const char *cur_dev = "vt0";
 
+/* A virtual CLOCK_MONOTONIC for the port under test: the sleep calls advance it with the semantics (and the argument
+ * validation) of the C library, every transmit is stamped with it. */
+static long long vclock_ns = 5000000000ll;
+static long long send_at_ns[64];
+static int send_op[64];
+
 ssize_t sendto(int fd, const void *buf, size_t len, int flags, const struct sockaddr *addr, socklen_t alen) {
     (void)fd; (void)flags; (void)addr; (void)alen;
+    if (cap_n < 64) { send_at_ns[cap_n] = vclock_ns; send_op[cap_n] = len >= 18 ? ((const uint8_t *)buf)[17] : -1; }
     cap_n++;
     cap_len = len < sizeof(cap) ? len : sizeof(cap);
     memcpy(cap, buf, cap_len);
     return (ssize_t)len;
 }
 
-int nanosleep(const struct timespec *req, struct timespec *rem) { (void)req; (void)rem; return 0; }
+static int ts_valid(const struct timespec *t) { return t && t->tv_sec >= 0 && t->tv_nsec >= 0 && t->tv_nsec < 1000000000l; }
+
+int nanosleep(const struct timespec *req, struct timespec *rem) {
+    (void)rem;
+    if (!ts_valid(req)) { errno = EINVAL; return -1; }
+    vclock_ns += (long long)req->tv_sec * 1000000000ll + req->tv_nsec;
+    return 0;
+}
+
+int clock_nanosleep(clockid_t clk, int flags, const struct timespec *req, struct timespec *rem) {
+    (void)clk; (void)rem;
+    if (!ts_valid(req)) return EINVAL;
+    long long t = (long long)req->tv_sec * 1000000000ll + req->tv_nsec;
+    if (flags & TIMER_ABSTIME) { if (t > vclock_ns) vclock_ns = t; }
+    else vclock_ns += t;
+    return 0;
+}
+
+int usleep(useconds_t us) { vclock_ns += (long long)us * 1000; return 0; }
+
+int clock_gettime(clockid_t clk, struct timespec *ts) {
+    (void)clk;
+    vclock_ns += 1000;                       /* reading the clock takes a microsecond */
+    ts->tv_sec = (time_t)(vclock_ns / 1000000000ll);
+    ts->tv_nsec = (long)(vclock_ns % 1000000000ll);
+    return 0;
+}
 
 int gethostname(char *name, size_t len) {
     if (cur_host_len < 0) return -1;
@@ -130,6 +164,23 @@ int main(void) {
                rec, gm.a[0], gm.a[1], gm.a[2], gm.a[3], gm.a[4], gm.a[5], gmtu, gtype, gspeed, gfl, rc1, rc2, rc3, rc4, cap_n);
         for (size_t i = 0; i < cap_len; i++) printf("%02x", cap[i]);
         printf("\n");
+        /* an Emit through the Linux port at a chosen phase of the clock's second: every pause is waited in full */
+        {
+            static const uint8_t S[6] = {0x02, 0x51, 0x52, 0x53, 0x54, 0x55};
+            unsigned pauses[3] = {(unsigned)(rec * 37 % 256), (unsigned)(rec * 91 % 256), (unsigned)((rec * 13 + 255) % 256)};
+            long long phase_us = (rec % 4 == 3) ? 1000000ll - 1 - (rec * 7919ll) % 300000ll : (rec * 104729ll) % 1000000ll;
+            vclock_ns = (vclock_ns / 1000000000ll + 2) * 1000000000ll + phase_us * 1000ll;
+            size_t n = 0;
+            memcpy(b, nif.macAddress, 6); memcpy(b + 6, M, 6); b[12] = 0x88; b[13] = 0xd9; b[14] = 1; b[15] = 0; b[16] = 0; b[17] = 2;
+            memcpy(b + 18, nif.macAddress, 6); memcpy(b + 24, M, 6); b[30] = 0; b[31] = 9; b[32] = 0; b[33] = 3; n = 34;
+            for (int k = 0; k < 3; k++) { b[n++] = (uint8_t)(k & 1); b[n++] = (uint8_t)pauses[k]; memcpy(b + n, S, 6); n += 6; memcpy(b + n, M, 6); n += 6; }
+            cap_n = 0;
+            long long t0 = vclock_ns;
+            if (nif.MTU >= 80) parseFrame(b, &nif);
+            printf("EMIT %ld phase_us=%lld pauses=%u,%u,%u sends=%d at_us=", rec, phase_us, pauses[0], pauses[1], pauses[2], cap_n);
+            for (int k = 0; k < cap_n && k < 8; k++) printf("%s%lld:%d", k ? "," : "", (send_at_ns[k] - t0) / 1000, send_op[k]);
+            printf("\n");
+        }
         free(nif.recvBuffer);
         rec++;
     }
